@@ -521,6 +521,40 @@ class HistoryRunner:
             elif op == "exclude":
                 opsx = sx([Sym("exclude"), n, list(desc["ks"])])
                 W.handles[n].exclude(*desc["ks"], inplace=True)
+            elif op == "lcall":
+                L, sub = W.handles[n], desc["sub"]
+                members = self.leaf_members(L)
+                self.count("lcall:" + sub)
+                self.count("lcall:stack-" + ("locked" if L.is_locked else ("some-member-locked" if any(x.is_locked for x in members) else "unlocked")))
+                if any(W.kind(m) == "lazy" for m in L.tensordicts):
+                    self.count("lcall:nested-stack")
+                if sub in ("set", "setitem", "update"):
+                    W.counter += 1.0
+                    val = to.full(tuple(L.batch_size), W.counter)
+                    opsx = sx([Sym("lcall"), n, [Sym("update" if sub == "update" else "set"), desc["k"]]])
+                    if sub == "set":
+                        L.set(desc["k"], val)
+                    elif sub == "setitem":
+                        L[desc["k"]] = val
+                    else:
+                        L.update({desc["k"]: val})
+                elif sub in ("del", "delitem"):
+                    opsx = sx([Sym("lcall"), n, [Sym("del"), desc["k"]]])
+                    if sub == "del":
+                        L.del_(desc["k"])
+                    else:
+                        del L[desc["k"]]
+                elif sub == "rename":
+                    opsx = sx([Sym("lcall"), n, [Sym("rename"), desc["k"], desc["k2"], bool(desc["safe"])]])
+                    L.rename_key_(desc["k"], desc["k2"], safe=bool(desc["safe"]))
+                elif sub == "select":
+                    opsx = sx([Sym("lcall"), n, [Sym("select"), list(desc["ks"])]])
+                    L.select(*desc["ks"], inplace=True)
+                elif sub == "exclude":
+                    opsx = sx([Sym("lcall"), n, [Sym("exclude"), list(desc["ks"])]])
+                    L.exclude(*desc["ks"], inplace=True)
+                else:
+                    raise Desync("unknown routed call " + sub)
             elif op == "append":
                 opsx = sx([Sym("append"), n, desc["m"]])
                 W.handles[n].append(W.handles[desc["m"]])
@@ -573,7 +607,19 @@ class HistoryRunner:
         if self.unsupported:
             return False
         if op != "drop":
-            self.oracle_after(desc, before, outcome, target)       # the oracle never looks at the model: evaluated first
+            after = self.oracle_after(desc, before, outcome, target)       # the oracle never looks at the model: evaluated first
+            if op == "lcall":
+                changed = [m for m, b in before.items() if m in after and b["ents"] != after[m]["ents"]]
+                self.count("lcall:outcome:" + outcome)
+                if outcome != "ok" and changed:
+                    self.count("lcall:raised-after-partial-effect")
+                if before[n]["is_locked"]:
+                    self.count("lcall:on-locked-stack:" + outcome)
+                    if changed:
+                        # a locked stack (stored flag or derived from its members): nothing changes anywhere, not even an unlocked node
+                        self.oracle.append(("locked_frozen:routed-call-on-locked-stack", {"stack": n, "sub": desc["sub"], "outcome": outcome, "changed": changed},
+                                            {"call": "lazy." + desc["sub"], "effect": "changed", "stream": "history",
+                                             "pattern": None}))
         if op in ("lock", "unlock") and outcome.startswith("other:"):
             # the lock error path formats repr(self), which raises TypeError/AttributeError for some heterogeneous lazy stacks:
             # for the model this is the lock error (since the fix of D60 the state is restored whatever was raised)
@@ -622,6 +668,25 @@ class HistoryRunner:
                 walk(o, [], m)
         return out
 
+    def routable(self, o, depth=0):
+        """a lazy stack with members all the way down (TensorDict members, or lazy stacks that are routable themselves)"""
+        W = self.W
+        if W.kind(o) == "td":
+            return type(o) is self.t["TD"]
+        if not (depth < 6 and len(o.tensordicts) > 0 and all(self.routable(m, depth + 1) for m in o.tensordicts)):
+            return False
+        # the batch size a stack recorded is the one of its construction: a member stack that has grown since (insert / append)
+        # leaves it stale, and no value of a valid shape exists any more (a shape matter, outside this property)
+        mb = [tuple(m.batch_size) for m in o.tensordicts]
+        d = o.stack_dim
+        return all(b == mb[0] for b in mb) and tuple(o.batch_size) == mb[0][:d] + (len(mb),) + mb[0][d:]
+
+    def leaf_members(self, o):
+        W = self.W
+        if W.kind(o) == "td":
+            return [o]
+        return [x for m in o.tensordicts for x in self.leaf_members(m)]
+
     def choose(self, hs, tds, lzs):
         W, rng = self.W, self.rng
         r = rng.random()
@@ -629,7 +694,7 @@ class HistoryRunner:
             return {"op": "newtd"}
         table = [("lock", 14), ("unlock", 14), ("set", 14), ("setnode", 9), ("setbest", 3), ("setinplace", 3), ("del", 5), ("pop", 2),
                  ("rename", 3), ("clear", 1), ("popitem", 1), ("select", 2), ("exclude", 3), ("newlazy", 3), ("append", 3), ("insert", 1),
-                 ("memmap", 2), ("share", 2), ("pickle", 3), ("makememmap", 1), ("get", 8), ("drop", 6)]
+                 ("memmap", 2), ("share", 2), ("pickle", 3), ("makememmap", 1), ("get", 8), ("drop", 6), ("lcall", 9)]
         tot = sum(w for _, w in table)
         x = rng.random() * tot
         for name, w in table:
@@ -638,6 +703,28 @@ class HistoryRunner:
                 break
         if name in ("lock", "unlock"):
             return {"op": name, "n": self.pick(hs)}
+        if name == "lcall":
+            # a structural call on a lazy-stack handle, routed to the members (Model/C05_LazyCall.v)
+            cands = [m for m in lzs if self.routable(W.handles[m])]
+            if not cands:
+                return None
+            l = self.pick(cands)
+            keys = sorted({k for x in self.leaf_members(W.handles[l]) for k, _ in W.entries(x)})
+            sub = self.pick(["set", "setitem", "update", "del", "delitem", "rename", "select", "exclude"])
+            d = {"op": "lcall", "n": l, "sub": sub}
+            if sub in ("set", "setitem", "update"):
+                d["k"] = self.pick(KEYS)
+            elif sub in ("del", "delitem"):
+                d["k"] = self.pick(keys) if keys and rng.random() < 0.8 else self.pick(KEYS)
+            elif sub == "rename":
+                d["k"] = self.pick(keys) if keys and rng.random() < 0.85 else self.pick(KEYS)
+                d["k2"], d["safe"] = self.pick(KEYS), rng.random() < 0.3
+            else:
+                ks = [k for k in KEYS if rng.random() < 0.4]
+                if sub == "select" and rng.random() < 0.7:
+                    ks = [k for k in ks if k in keys]
+                d["ks"] = ks
+            return d
         n = self.pick(tds)
         o = W.handles[n]
         keys = [k for k, _ in W.entries(o)]
@@ -1134,8 +1221,11 @@ def main(R):
         "h5 (PersistentTensorDict) and distributed/process-pool calls are outside the run (listed under reflection.excluded_names)",
     ]
     R.extra["stated_not_proved"] = {
-        "model scope": "tensorclass / TensorDictParams / _SubTensorDict / NonTensorData and calls routed through a lazy stack to its members are "
-                       "covered by the reflection and writes streams (oracle) only, not by the model; the full statements of locked_frozen and "
+        "model scope": "tensorclass / TensorDictParams / _SubTensorDict / NonTensorData are covered by the reflection and writes streams (oracle) "
+                       "only, not by the model.  Calls routed through a lazy stack to its members are inside the model for set / stack[key]=v / "
+                       "update({k: tensor}) / del_ / del stack[key] / rename_key_ / select(inplace) / exclude(inplace) with tensor values "
+                       "(Model/C05_LazyCall.v, history ops `lcall`); pop / popitem / index assignment of a tensordict / update with a lazy-stack "
+                       "source on a lazy stack stay with the oracle streams; the full statements of locked_frozen and "
                        "member_cannot_unlock are proved (the refutations of D7, D8, D55, D56 went away with the fix commits)"}
     R.trusted = ["harness/c05_reflect.py argument synthesis (coverage measured: reflection.* in this file)",
                  "pickle, mmap, shared memory, CPython weakref/gc behaviour"]
